@@ -242,6 +242,72 @@ def _float_injective(H, f):
     return st, ((mm.eval(x, True).as_long(), mm.eval(y, True).as_long()) if st == "sat" else None)
 
 
+_PROC_SNIPPET = r"""
+import sys, json
+sys.path.insert(0, sys.argv[1])
+from vf.plain import plain
+from vf.db import db
+N = plain(); D = db()
+out = {}
+for pid, payload in json.loads(sys.argv[2]):
+    p = [q for q in D.pgns if q.id == pid][0]
+    try:
+        m = N.pgns.__dict__["decode_pgn_%s" % D.func_suffix(p)](int(payload, 16))
+        m.add_data(1, 2, 3, None, None, True, b"")
+        out[pid] = m.hash
+    except Exception as e:
+        out[pid] = "raised %r" % (e,)
+print(json.dumps(out))
+"""
+
+
+def process_check(rep):
+    """the hash is the same in every process: one message per key-field kind (numbers, lookups, MMSI, text) hashed by the plain
+    code in two interpreter processes with different string-hash seeds"""
+    import json
+    import subprocess
+    import sys
+    D = db()
+    from .wire import match_payload
+    cases = []
+    seen_types = {}
+    for p in D.pgns:
+        kts = tuple(sorted({f.type for f in p.fields if f.key}))
+        if not kts or seen_types.get(kts, 0) >= 2:
+            continue
+        if any(f.type in ("STRING_LAU",) and f.key for f in p.fields):
+            # text key (station id): a message with three LAU strings
+            i0 = next(i for i, f in enumerate(p.fields) if not f.fixed)
+            head_bits = max((f.off + f.len for f in p.fields[:i0] if f.fixed), default=0)
+            body = b"".join(bytes([len(t) + 2, 1]) + t for t in (b"HARBOUR-7", b"name"))
+            pl = (int.from_bytes(body, "little") << head_bits) | 1
+        else:
+            if not all(f.fixed for f in p.fields):
+                continue
+            pl = int.from_bytes(match_payload(p, 1), "little")
+        seen_types[kts] = seen_types.get(kts, 0) + 1
+        cases.append((p.id, hex(pl)))
+    root = os.path.dirname(os.path.dirname(os.path.abspath(__file__)))
+    outs = []
+    for seed_ in ("1", "2"):
+        env = dict(os.environ, PYTHONHASHSEED=seed_)
+        try:
+            pr = subprocess.run([sys.executable, "-c", _PROC_SNIPPET, root, json.dumps(cases)], capture_output=True, text=True, timeout=120, env=env)
+            outs.append(json.loads(pr.stdout.strip().splitlines()[-1]))
+        except Exception as e:
+            if rep is None:
+                return None, "subprocess failed: %r" % (e,)
+            rep.inconc("process independence: subprocess failed: %r" % (e,))
+            return
+    diff = [k for k in outs[0] if outs[0][k] != outs[1].get(k) and not str(outs[0][k]).startswith("raised")]
+    if rep is None:
+        return bool(diff), "hash differs between two interpreter processes for %r" % (diff[:3],) if diff else "same hashes in both processes"
+    rep.count("messages_hashed_in_two_processes", len([k for k in outs[0] if not str(outs[0][k]).startswith("raised")]))
+    if diff:
+        rep.violation({"kind": "hash-process-dependent"}, "the identity hash of %s differs between two interpreter processes (%s vs %s)" % (diff[0], outs[0][diff[0]], outs[1][diff[0]]),
+                      {"kind": "process"})
+
+
 def run(tier, seed):
     from . import explorer
     rep = Report(PID, tier, seed, "other")
@@ -265,10 +331,13 @@ def run(tier, seed):
     rep.coverage.update(explanation="bounded symbolic verification: %d definitions run symbolically through add_data with an injective md5 model; hash text shape per definition, "
                                     "injectivity of every key-field kind by two-copy SMT queries" % nd)
     rep.assumptions = ["MD5 has no collisions on the short key strings", "str() of distinct ints/floats/None is distinct"]
+    process_check(rep)
     return rep.finish(replay)
 
 
 def replay(r):
+    if r.get("kind") == "process":
+        return process_check(None)
     """concrete search on the plain code: equal hashes for different key bits / different hashes for equal key bits"""
     import itertools
     from .plain import plain
